@@ -23,7 +23,7 @@ RULE = ("G8 grammar: 1..4 basetypes, chains of 2..9 keys, shared prefixes betwee
 ASSUME = ["extrapolated types whose name has no separator or more than one separator are executed but not judged (the statement's naming "
           "rule 'basetype + separator + last key' vs the documented 'replace the keytype' are not both defined there)",
           "icontract evaluates the postcondition on the real call's arguments and return value"]
-BUDGET = {"quick": 24000, "thorough": 400000}
+BUDGET = {"quick": 24000, "thorough": 3200000}
 NSHARDS = 16
 SEP = "__"
 
